@@ -132,27 +132,50 @@ func ruleSetOrd(c *Ctx) {
 		}
 		c.R.Check(ok, "fun."+h.fn, "result follows the first operand's order", fd.Pos(), "ranges over x.link (then y.link for union); operands not reassigned", "the result is not built in the first operand's insertion order (operands swapped/reassigned or another iteration order): "+h.fn+"([3,2,1],[1,2]) changes element order")
 	}
-	// call sites: the built-in hands its first argument's set to the helper first, its second argument's set second
+	// call sites: whoever applies a set helper to the arguments of a built-in (the built-in's own literal, or a shared literal
+	// that receives the helper as a function value) hands the first argument's set first, the second argument's set second
 	sites := 0
-	for _, b := range c.builtins("fun") {
-		defs := c.localDefs(b.lit.Body)
-		var pname string
-		if b.lit.Type.Params != nil && len(b.lit.Type.Params.List) == 1 && len(b.lit.Type.Params.List[0].Names) == 1 {
-			pname = b.lit.Type.Params.List[0].Names[0].Name
-		}
-		for _, call := range c.callsTo(b.lit.Body, "fun.union", "fun.intersect", "fun.diff") {
-			if len(call.Args) != 2 || pname == "" {
-				continue
-			}
-			sites++
-			uses := func(e ast.Expr, k string) bool {
-				return strings.Contains(c.sxInl(e, defs), "(IndexExpr "+pname+" Index:"+k+")")
-			}
-			ok := uses(call.Args[0], "0") && !uses(call.Args[0], "1") && uses(call.Args[1], "1") && !uses(call.Args[1], "0")
-			c.R.Check(ok, "fun."+b.name+"$init", "operands reach "+c.calleeName(call)+" in argument order", call.Pos(), "helper(set of args[0], set of args[1])", "the set helper is not called with (set of the first argument, set of the second argument): the result follows the wrong operand's order (intersect([3,2,1],[1,2,3]) must be [3,2,1]) or, for diff, the operands' roles are exchanged")
+	if pk := c.Mod["fun"]; pk != nil {
+		for _, f := range pk.Syntax {
+			ast.Inspect(f, func(x ast.Node) bool {
+				lit, ok := x.(*ast.FuncLit)
+				if !ok || lit.Type.Params == nil || len(lit.Type.Params.List) != 1 || len(lit.Type.Params.List[0].Names) != 1 {
+					return true
+				}
+				if typeStr(c.typeOf(lit.Type.Params.List[0].Names[0])) != "[]*val.Val" {
+					return true
+				}
+				pname := lit.Type.Params.List[0].Names[0].Name
+				defs := c.localDefs(lit.Body)
+				for _, call := range c.calls(lit.Body) {
+					if len(call.Args) != 2 {
+						continue
+					}
+					nm := c.calleeName(call)
+					isHelper := nm == "fun.union" || nm == "fun.intersect" || nm == "fun.diff"
+					if !isHelper && c.calleeObj(call) == nil && typeStr(c.typeOf(call.Fun)) == "func(x *fun.valSet, y *fun.valSet) []*val.Val" {
+						isHelper, nm = true, src(call.Fun)
+					}
+					if !isHelper && c.calleeObj(call) == nil {
+						if sig, ok := c.typeOf(call.Fun).Underlying().(*types.Signature); ok && sig.Params().Len() == 2 && typeStr(sig.Params().At(0).Type()) == "*fun.valSet" && typeStr(sig.Params().At(1).Type()) == "*fun.valSet" {
+							isHelper, nm = true, src(call.Fun)
+						}
+					}
+					if !isHelper {
+						continue
+					}
+					sites++
+					uses := func(e ast.Expr, k string) bool {
+						return strings.Contains(c.sxInl(e, defs), "(IndexExpr "+pname+" Index:"+k+")")
+					}
+					ok := uses(call.Args[0], "0") && !uses(call.Args[0], "1") && uses(call.Args[1], "1") && !uses(call.Args[1], "0")
+					c.R.Check(ok, "fun."+enclosingVarName(f, lit)+"$init", "operands reach "+nm+" in argument order", call.Pos(), "helper(set of args[0], set of args[1])", "the set helper is not called with (set of the first argument, set of the second argument): the result follows the wrong operand's order (intersect([3,2,1],[1,2,3]) must be [3,2,1]) or, for diff, the operands' roles are exchanged")
+				}
+				return true
+			})
 		}
 	}
-	c.R.Check(sites >= 3, "fun", "set built-ins call the set helpers", token.NoPos, "union, intersect, diff", "fewer than three call sites of the set helpers found in the built-ins")
+	c.R.Check(sites >= 1, "fun", "set built-ins call the set helpers", token.NoPos, "call sites found", "no call site of the set helpers found in the built-ins")
 	if fd := c.FuncDecl("fun", "valSetOf"); fd != nil {
 		// range over the list; key := v.String(); if _, seen := m[key]; !seen { m[key] = v; l = append(l, key) }
 		ok := c.hasNode(fd, fd.Body, "(RangeStmt Key:_ Value:$0 Tok::= $p0 Body:(BlockStmt [(AssignStmt Lhs:[$1] Tok::= Rhs:[(CallExpr Fun:(SelectorExpr $0 Sel:String))]) (IfStmt Init:(AssignStmt Lhs:[_ $2] Tok::= Rhs:[(IndexExpr $3 Index:$1)]) Cond:(UnaryExpr Op:! $2) Body:(BlockStmt [(AssignStmt Lhs:[(IndexExpr $3 Index:$1)] Tok:= Rhs:[$0]) (AssignStmt Lhs:[$4] Tok:= Rhs:[(CallExpr Fun:append Args:[$4 $1])])]))]))", false)
@@ -785,24 +808,100 @@ func ruleIdent2(c *Ctx) {
 	renderers := []site{{"val", "Val.Key"}, {"val", "stringify"}, {"fun", "stringify0"}}
 	// num: the text used for rendering and keying is injective on float64 (shortest round-trip form) and on int64
 	{
-		singleReturnCall := func(sp, fn string) (*ast.FuncDecl, *ast.CallExpr, types.Object) {
+		// fmtCall: on every return path the result is (a string conversion of) one call of strconv.<fmtName> / <appName>
+		// on the function's own, never reassigned, parameter; returns the argument list after the value argument
+		fmtCall := func(sp, fn, fmtName, appName string) (*ast.FuncDecl, [][]ast.Expr, string) {
 			fd := c.FuncDecl(sp, fn)
 			if fd == nil {
 				c.R.Anchor(sp + "." + fn)
-				return nil, nil, nil
+				return nil, nil, ""
 			}
 			var param types.Object
 			if fd.Type.Params != nil && len(fd.Type.Params.List) == 1 && len(fd.Type.Params.List[0].Names) == 1 {
 				param = c.objOf(fd.Type.Params.List[0].Names[0])
 			}
-			if len(fd.Body.List) == 1 {
-				if r, ok := fd.Body.List[0].(*ast.ReturnStmt); ok && len(r.Results) == 1 {
-					if ce, ok := unparen(r.Results[0]).(*ast.CallExpr); ok {
-						return fd, ce, param
+			if param == nil {
+				return fd, nil, "not a function of one parameter"
+			}
+			reassigned := false
+			ast.Inspect(fd.Body, func(x ast.Node) bool {
+				switch st := x.(type) {
+				case *ast.AssignStmt:
+					for _, l := range st.Lhs {
+						if id, ok := unparen(l).(*ast.Ident); ok && c.objOf(id) == param {
+							reassigned = true
+						}
+					}
+				case *ast.IncDecStmt:
+					if id, ok := unparen(st.X).(*ast.Ident); ok && c.objOf(id) == param {
+						reassigned = true
+					}
+				case *ast.UnaryExpr:
+					if st.Op == token.AND {
+						if id, ok := unparen(st.X).(*ast.Ident); ok && c.objOf(id) == param {
+							reassigned = true
+						}
 					}
 				}
+				return true
+			})
+			if reassigned {
+				return fd, nil, "the value is modified before it is formatted"
 			}
-			return fd, nil, param
+			defs := c.localDefs(fd.Body)
+			var out [][]ast.Expr
+			rets := returnsOf(fd.Body)
+			if len(rets) == 0 {
+				return fd, nil, "no return"
+			}
+			for _, r := range rets {
+				if len(r.Results) != 1 {
+					return fd, nil, "unexpected result list"
+				}
+				e := unparen(r.Results[0])
+				for d := 0; d < 4; d++ {
+					if id, ok := e.(*ast.Ident); ok {
+						if def, ok := defs[c.objOf(id)]; ok {
+							e = unparen(def)
+							continue
+						}
+					}
+					if ce, ok := e.(*ast.CallExpr); ok && len(ce.Args) == 1 {
+						if tv, ok := c.infoAt(ce).Types[ce.Fun]; ok && tv.IsType() && typeStr(tv.Type) == "string" {
+							e = unparen(ce.Args[0])
+							continue
+						}
+					}
+					break
+				}
+				ce, ok := e.(*ast.CallExpr)
+				if !ok {
+					return fd, nil, "result " + src(r.Results[0]) + " is not a formatter call"
+				}
+				var rest []ast.Expr
+				switch c.calleeName(ce) {
+				case "strconv." + fmtName:
+					if len(ce.Args) < 1 {
+						return fd, nil, "bad call"
+					}
+					if id, ok := unparen(ce.Args[0]).(*ast.Ident); !ok || c.objOf(id) != param {
+						return fd, nil, "formats " + src(ce.Args[0]) + ", not the value itself"
+					}
+					rest = ce.Args[1:]
+				case "strconv." + appName:
+					if len(ce.Args) < 2 {
+						return fd, nil, "bad call"
+					}
+					if id, ok := unparen(ce.Args[1]).(*ast.Ident); !ok || c.objOf(id) != param {
+						return fd, nil, "formats " + src(ce.Args[1]) + ", not the value itself"
+					}
+					rest = ce.Args[2:]
+				default:
+					return fd, nil, "result comes from " + c.calleeName(ce)
+				}
+				out = append(out, rest)
+			}
+			return fd, out, ""
 		}
 		constInt := func(e ast.Expr) (int64, bool) {
 			v := c.constOf(e)
@@ -814,25 +913,36 @@ func ruleIdent2(c *Ctx) {
 			}
 			return 0, false
 		}
-		if fd, ce, param := singleReturnCall("util", "FmtFloat"); fd != nil {
-			ok := false
-			if ce != nil && c.calleeName(ce) == "strconv.FormatFloat" && len(ce.Args) == 4 && param != nil {
-				id, isID := unparen(ce.Args[0]).(*ast.Ident)
-				prec, okP := constInt(ce.Args[2])
-				bits, okB := constInt(ce.Args[3])
-				f, okF := constInt(ce.Args[1])
-				ok = isID && c.objOf(id) == param && okP && prec == -1 && okB && bits == 64 && okF && strings.ContainsRune("feEgG", rune(f))
+		if fd, calls, why := fmtCall("util", "FmtFloat", "FormatFloat", "AppendFloat"); fd != nil {
+			ok := why == "" && len(calls) > 0
+			for _, a := range calls {
+				if len(a) != 3 {
+					ok = false
+					continue
+				}
+				f, okF := constInt(a[0])
+				prec, okP := constInt(a[1])
+				bits, okB := constInt(a[2])
+				if !(okF && strings.ContainsRune("feEgG", rune(f)) && okP && prec == -1 && okB && bits == 64) {
+					ok = false
+					why = "format arguments are not (one of f e E g G, -1, 64)"
+				}
 			}
-			c.R.Check(ok, "util.FmtFloat", "float text is the shortest round-trip form of the value itself", fd.Pos(), "strconv.FormatFloat(n, fmt, -1, 64): distinct float64 values give distinct text, so non-integral numbers never render alike or collide as map keys", "non-integral numbers are not rendered by strconv.FormatFloat(n, fmt, -1, 64) of the value itself (rounded, truncated or pre-processed): distinct numbers can render alike and collide as map keys, and host maps with float keys lose entries")
+			c.R.Check(ok, "util.FmtFloat", "float text is the shortest round-trip form of the value itself", fd.Pos(), "strconv.FormatFloat / AppendFloat(n, fmt, -1, 64) on every return: distinct float64 values give distinct text, so non-integral numbers never render alike or collide as map keys", "non-integral numbers are not rendered by strconv.FormatFloat(n, fmt, -1, 64) of the value itself ("+why+"): distinct numbers can render alike and collide as map keys, and host maps with float keys lose entries")
 		}
-		if fd, ce, param := singleReturnCall("util", "FmtInt"); fd != nil {
-			ok := false
-			if ce != nil && c.calleeName(ce) == "strconv.FormatInt" && len(ce.Args) == 2 && param != nil {
-				id, isID := unparen(ce.Args[0]).(*ast.Ident)
-				base, okB := constInt(ce.Args[1])
-				ok = isID && c.objOf(id) == param && okB && base >= 2 && base <= 36
+		if fd, calls, why := fmtCall("util", "FmtInt", "FormatInt", "AppendInt"); fd != nil {
+			ok := why == "" && len(calls) > 0
+			for _, a := range calls {
+				if len(a) != 1 {
+					ok = false
+					continue
+				}
+				base, okB := constInt(a[0])
+				if !(okB && base >= 2 && base <= 36) {
+					ok = false
+				}
 			}
-			c.R.Check(ok, "util.FmtInt", "integer text is the exact positional form of the value itself", fd.Pos(), "strconv.FormatInt(n, base): injective", "integral numbers are not rendered by strconv.FormatInt of the value itself")
+			c.R.Check(ok, "util.FmtInt", "integer text is the exact positional form of the value itself", fd.Pos(), "strconv.FormatInt / AppendInt(n, base): injective", "integral numbers are not rendered by strconv.FormatInt of the value itself ("+why+")")
 		}
 		for _, r := range renderers {
 			s, p := arm(r.sp, r.fn, "KNum")
@@ -843,4 +953,23 @@ func ruleIdent2(c *Ctx) {
 			c.R.Check(okNum, r.sp+"."+r.fn, "num rendered through util.FmtInt / util.FmtFloat", p, "the two injective formatters", "numbers are rendered/keyed by something other than util.FmtInt / util.FmtFloat")
 		}
 	}
+}
+
+// enclosingVarName names the package-level variable (or function) whose initialiser contains lit.
+func enclosingVarName(f *ast.File, lit ast.Node) string {
+	for _, d := range f.Decls {
+		if d.Pos() <= lit.Pos() && lit.End() <= d.End() {
+			switch x := d.(type) {
+			case *ast.FuncDecl:
+				return x.Name.Name
+			case *ast.GenDecl:
+				for _, sp := range x.Specs {
+					if vs, ok := sp.(*ast.ValueSpec); ok && vs.Pos() <= lit.Pos() && lit.End() <= vs.End() && len(vs.Names) > 0 {
+						return vs.Names[0].Name
+					}
+				}
+			}
+		}
+	}
+	return "?"
 }
